@@ -10,9 +10,9 @@ import common as C
 from gen import c13_layout as L
 
 PROPERTY = "C13"
-LEAN_MODULES = ["LccModel.Props.C13"]
-PROPS_FILES = ["LccModel/Props/C13.lean"]
-NAMESPACES = {"LccModel/Props/C13.lean": "LccModel.C13"}
+LEAN_MODULES = ["LccModel.Props.C13", "LccModel.Props.C13Scan"]
+PROPS_FILES = ["LccModel/Props/C13.lean", "LccModel/Props/C13Scan.lean"]
+NAMESPACES = {"LccModel/Props/C13.lean": "LccModel.C13", "LccModel/Props/C13Scan.lean": "LccModel.C13Scan"}
 DRIVER = "drivers/C13.lean"
 TRUSTED_BASE = [
     "Lean 4.33.0 kernel; axioms of the property theorems ⊆ {propext, Classical.choice, Quot.sound}",
@@ -28,12 +28,19 @@ TRUSTED_BASE = [
     "(None, bool, int, float incl. -0.0/nan/inf, str, list/tuple/dict by length, plain instance, instance with __bool__, instance "
     "with __len__); re-validated against the real interpreter and the real loader on every run by the extracted tables "
     "(Generated/C13TablesCheck.lean, 8 obligations over 4 tables of 125 rows); the oracle uses its own table pv_truthy",
+    "the directory scan (glob '*.py' + the '__' filter of get_py_files_from_dir; glob + fnmatch exclusion of get_matching_files): "
+    "modelled by DirScan.acceptsName (a function of the entry's NAME: ends with '.py', does not start with '.', does not start "
+    "with '__') and DirScan.stemOf; re-validated on every run by executing the real functions on real scratch directories over "
+    "a name set (prefix x core x suffix) with every name once as a regular file, once as a directory and once as a dangling "
+    "symbolic link (scanFilterTable, scanStemTable; obligations scan_filter_agrees, scan_stem_agrees); the oracle uses the "
+    "layout's own rule c13_layout.scan_accepts",
 ]
 ASSUMPTIONS = [
     "each case is loaded as in a fresh interpreter: Metadata._next_rank reset to 1, builder._objects_with_metadata cleared, "
     "sys.modules entries of the scratch tree purged",
     "Python identifiers / file stems are ASCII and pairwise distinct within one class/module body; name-mangled identifiers "
-    "(__x without trailing underscores) and files named __*.py (skipped on purpose by get_py_files_from_dir) are not generated; "
+    "(__x without trailing underscores) are not generated; files named __*.py, dot-prefixed *.py and everything not ending in .py "
+    "are generated as droppings (never suite modules); file stems that are not identifiers (a.b, with space, _private) are generated; "
     "class members named __x__ are generated at a low rate: they are the open finding D18 (skipped by get_object_attributes)",
     "naming schemes: the default one and the (name_fmt, description_fmt) pair restricted to literal text and plain {key} fields over "
     "int/str parameter values; custom callables, add_test_into_suite, inherited test methods and SUITE dicts of wrong type are not generated",
@@ -43,7 +50,7 @@ ASSUMPTIONS = [
     "variable (set / unset by the harness around the load), an attribute of the object they receive, len() of such an attribute or "
     "the item's own identifier; values of other types (bytes, sets, numpy arrays, objects whose __bool__ raises) are not generated",
 ]
-RULE = ("a layout counts if its declared tree has >= 2 levels of suites somewhere (a test at depth >= 3 of its path) and contains at "
+RULE = ("(droppings and tool directories never make a layout count) a layout counts if its declared tree has >= 2 levels of suites somewhere (a test at depth >= 3 of its path) and contains at "
         "least one of: hidden item, conditional (visible_if) item, parametrized test, directory without module, single-class "
         "collapse; for the malformed stream: the injected defect is present; distinct = hash of (entry point, layout)")
 EXPLANATION = ("Theorems over all layouts (LccModel.C13.*) proved in Lean by structural induction; the model is tied to loader.py by "
@@ -51,7 +58,11 @@ EXPLANATION = ("Theorems over all layouts (LccModel.C13.*) proved in Lean by str
                "(paths, order, names, descriptions, ranks, tags, properties, links, disabled, parameters, or the error class and "
                "kind); the oracle compares the loaded tree with the generator's own declaration list (an item under visible_if is "
                "declared iff the value its condition returns is a true value by the harness's own truth table). The loader's "
-               "decision for every value shape is extracted from the real code as tables and re-proved against the model.")
+               "decision for every value shape is extracted from the real code as tables and re-proved against the model. "
+               "The source trees also hold what tools leave behind (hidden drafts that are valid modules, lock files = dangling links, "
+               "AppleDouble binaries, backups, __init__.py, tool directories): they declare nothing, must not be imported (each reports "
+               "its own import) and must not fail the load; the model receives the directory as it is on disk and its scan "
+               "(DirScan.acceptsName, theorems over all names, table extracted from the real scan functions) decides.")
 
 
 # ---------------------------------------------------------------------------------------------
@@ -238,10 +249,45 @@ def x_nonempty(node, strict=False):
         any(x_nonempty(s, strict) for s in node["subs"] if s.get("origin") != "class")
 
 
+def _has_module(d):
+    return bool(d["mods"]) or any(_has_module(s) for s in d["dirs"])
+
+
+def drop_flags(d, flags, level="top"):
+    """feature flags of the droppings of a directory tree (they declare nothing)"""
+    for dr in d.get("drops") or []:
+        flags.add("drop:" + dr["kind"])
+        flags.add("drop-body:" + dr["body"])
+        flags.add("drop-level:" + level)
+        if dr["name"].startswith(".") and dr["name"].endswith(".py"):
+            flags.add("drop-dot-py")
+    for m in d["mods"]:
+        if not m["stem"].isidentifier():
+            flags.add("odd-stem")
+        if m.get("broken") in ("binary", "dangling", "isdir"):
+            flags.add("unimportable-py-entry:" + m["broken"])
+    stems = {m["stem"] for m in d["mods"]}
+    for s in d["dirs"]:
+        if not _has_module(s):
+            flags.add("junk-dir")
+        elif s["name"].startswith((".", "__")):
+            flags.add("hidden-dir-with-modules")
+        drop_flags(s, flags, "companion" if s["name"] in stems else "junk-dir" if not _has_module(s) else "dir-without-module")
+
+
+def drop_names(d, prefix=()):
+    """every dropping of the tree: (directory names..., file name)"""
+    p = prefix + (d["name"],)
+    out = [p + (dr["name"],) for dr in d.get("drops") or []]
+    for s in d["dirs"]:
+        out += drop_names(s, p)
+    return out
+
+
 def x_dir(d, flags, loose_extra):
     """top-level nodes of a directory, in the order the property/documentation prescribes"""
     table = []      # (key, node)
-    for m in sorted(d["mods"], key=lambda m: m["stem"]):
+    for m in sorted(d["mods"], key=lambda m: m["stem"] + ".py"):
         node = x_file(m, flags)
         if node["visible"]:
             table.append([("file", m["stem"]), node])
@@ -254,7 +300,7 @@ def x_dir(d, flags, loose_extra):
             if k == ("file", s["name"]):
                 target = node
         if target is None:
-            flags.add("dir-without-module")
+            flags.add("dir-without-module" if _has_module(s) else "junk-dir")
             target = {"name": s["name"], "desc": _desc_from_name(s["name"]), "rank": 0, "visible": True, "origin": "dir",
                       "tests": [], "subs": []}
             table.append([("dir", s["name"]), target])
@@ -338,9 +384,11 @@ def declared(case):
     flags, extra = Flags(), []
     if entry == "dir":
         nodes = x_dir(lay, flags, extra)
+        drop_flags(lay, flags)
     elif entry == "files":
         nodes = []
-        for m in sorted(lay["mods"], key=lambda m: m["stem"]):
+        drop_flags(dict(lay, dirs=[]), flags)
+        for m in sorted(lay["mods"], key=lambda m: m["stem"] + ".py"):
             n = x_file(m, flags)
             (nodes if n["visible"] and x_nonempty(n) else extra).append(n)
     elif entry == "file":
@@ -353,7 +401,8 @@ def declared(case):
         c = [c for c in m["classes"] if c["attr"] == pick[1]][0]
         nodes = [dict(x_cls(c, flags), visible=True)]
     entries = x_entries(nodes)
-    return {"entries": entries, "falsy_hidden": x_fh_paths(nodes + [n for n in extra if n.get("fh")], (), False) if "falsy-callable-hides" in flags else [],
+    drops = [] if entry not in ("dir", "files") else [list(p) for p in drop_names(lay if entry == "dir" else dict(lay, dirs=[]))]
+    return {"drops": drops, "entries": entries, "falsy_hidden": x_fh_paths(nodes + [n for n in extra if n.get("fh")], (), False) if "falsy-callable-hides" in flags else [],
             "strict_dup": x_strict_dup(nodes), "loose_dup": x_loose_dup(nodes + extra),
             "flags": sorted(flags), "invalid": any(f.startswith("INVALID") for f in flags),
             "depth": max([len(e["path"]) for e in entries] + [0])}
@@ -399,7 +448,7 @@ def _classify(e):
         if m:
             arg = m.group(1)
             if kind == "importError":
-                arg = os.path.basename(arg)[:-3]
+                return {"class": cls, "kind": kind, "arg": os.path.basename(arg)[:-3], "file": os.path.basename(arg)}
             return {"class": cls, "kind": kind, "arg": arg}
     return {"class": cls, "kind": "other", "arg": msg[:200]}
 
@@ -418,7 +467,15 @@ def observe(case):
     old_dwb = sys.dont_write_bytecode
     sys.dont_write_bytecode = True
     env = L.env_of(case["layout"])      # what the conditions read from the environment at load time
+    env["LCCV_IMPORT_LOG"] = os.path.join(top, "import.log")   # every dropping holding Python source reports its own import
     saved_env = {k: os.environ.get(k) for k in env}
+
+    def imported():
+        try:
+            with open(env["LCCV_IMPORT_LOG"]) as fh:
+                return sorted({os.path.relpath(l.strip(), top).replace(os.sep, "/") for l in fh if l.strip()})
+        except OSError:
+            return []
     try:
         for k, val in env.items():
             if val is None:
@@ -443,9 +500,9 @@ def observe(case):
                 except Exception as e:       # the harness's own import of the module (not the loader)
                     return {"error": {"class": "SuiteLoadingError", "kind": "importError", "arg": stem, "by": "harness-import"}}
                 suites = [loader.load_suite_from_class(getattr(mod, attr))]
-            return {"ok": [_dump_suite(s) for s in suites], "flat": _flat(suites)}
+            return {"ok": [_dump_suite(s) for s in suites], "flat": _flat(suites), "imported_drops": imported()}
         except Exception as e:      # classified: the loader's exceptions are part of the observation
-            return {"error": _classify(e)}
+            return {"error": _classify(e), "imported_drops": imported()}
     finally:
         for k, val in saved_env.items():
             if val is None:
@@ -503,13 +560,28 @@ def _j_dir(d):
     return {"name": d["name"], "mods": [_j_module(m) for m in d["mods"]], "dirs": [_j_dir(s) for s in d["dirs"]]}
 
 
+def _j_files(d):
+    """every file entry of a directory as it is on disk: the layout's modules AND its droppings (a dropping holding Python
+    source travels with its whole module: the model's scan, not the harness, decides that it is not loaded)"""
+    out = [{"name": m["stem"] + ".py", "mod": None if m.get("broken") in ("binary", "dangling", "isdir") else _j_module(m)}
+           for m in d["mods"]]
+    for dr in d.get("drops") or []:
+        out.append({"name": dr["name"], "mod": _j_module(dr["mod"]) if dr["body"] == "module" else None})
+    # os.listdir order is arbitrary: interleave deterministically
+    return sorted(out, key=lambda e: (sum(map(ord, e["name"])) % 7, e["name"]))
+
+
+def _j_rawdir(d):
+    return {"name": d["name"], "files": _j_files(d), "dirs": [_j_rawdir(s) for s in d["dirs"]]}
+
+
 def model_request(case):
     entry, pick = case["entry"], case.get("pick")
     lay = L.with_ranks(case["layout"], entry, pick)
     if entry == "dir":
-        return {"entry": "dir", "dir": _j_dir(lay)}
+        return {"entry": "rawdir", "dir": _j_rawdir(lay)}
     if entry == "files":
-        return {"entry": "files", "mods": [_j_module(m) for m in lay["mods"]]}
+        return {"entry": "rawfiles", "files": _j_files(lay)}
     if entry == "file":
         return {"entry": "file", "mod": _j_module([m for m in lay["mods"] if m["stem"] == pick][0])}
     m = [m for m in lay["mods"] if m["stem"] == pick[0]][0]
@@ -563,7 +635,18 @@ def _shrink_lists(obj, path=()):
     """yield copies of obj with one element removed from one list of dict-items somewhere inside"""
     if isinstance(obj, dict):
         for k, v in obj.items():
-            if k in ("tests", "subs", "classes", "mods", "dirs") and isinstance(v, list):
+            if k == "drops" and isinstance(v, list):
+                for i in range(len(v)):
+                    c = copy.deepcopy(obj)
+                    del c[k][i]
+                    yield c
+                for i, it in enumerate(v):
+                    if it.get("mod") and (it["mod"]["classes"] or len(it["mod"]["tests"]) > 1):
+                        c = copy.deepcopy(obj)
+                        c[k][i]["mod"]["classes"] = []
+                        c[k][i]["mod"]["tests"] = c[k][i]["mod"]["tests"][:1]
+                        yield c
+            elif k in ("tests", "subs", "classes", "mods", "dirs") and isinstance(v, list):
                 for i in range(len(v)):
                     c = copy.deepcopy(obj)
                     del c[k][i]
@@ -677,6 +760,41 @@ COND_SHAPES = [
                        _t("c", pos=2, vis=_cond(_PV("str", v="x"), call="falsy-obj"))])]}},
 ]
 
+def _drop(name, kind, body="module", tests=("draft",)):
+    mod = None
+    if body == "module":
+        mod = _m("", tests=[_t(a, pos=i) for i, a in enumerate(tests)])
+    return {"name": name, "kind": kind, "body": body, "mod": mod}
+
+
+# what tools leave in a suites directory is not a suite module (minimised failing inputs of the seeded change C13-7: the
+# directory scan matched dot-prefixed names): hidden drafts with tests on two levels; a lock file (dangling symbolic link) and an
+# AppleDouble binary; everything else that is not `<stem>.py`; directories nobody declared
+DROPPINGS = [
+    {"entry": "dir", "defect": None, "layout": {"name": "suites", "noise": False, "drops": [_drop(".alpha_draft.py", "hidden-draft")],
+     "mods": [_m("alpha", tests=[_t("first", pos=0), _t("second", pos=1)])],
+     "dirs": [{"name": "alpha", "noise": False, "dirs": [], "mods": [_m("beta", tests=[_t("nested")])],
+               "drops": [_drop(".beta_wip.py", "hidden-draft")]}]}},
+    {"entry": "dir", "defect": None, "layout": {"name": "suites", "noise": False, "dirs": [],
+     "mods": [_m("alpha", tests=[_t("first", pos=0), _t("second", pos=1)])],
+     "drops": [_drop("._alpha.py", "appledouble", "binary"), _drop(".#alpha.py", "lock-symlink", "dangling")]}},
+    {"entry": "files", "defect": None, "layout": {"name": "suites", "noise": False, "dirs": [],
+     "mods": [_m("alpha", tests=[_t("first")]), _m("a", tests=[_t("t_a")]), _m("a.b", tests=[_t("t_ab")]), _m("_private", tests=[_t("p")])],
+     "drops": [_drop(".alpha.py", "hidden-twin"), _drop("__init__.py", "dunder-file"), _drop("alpha.PY", "upper-ext"),
+               _drop("alpha.py~", "backup-tilde"), _drop("#alpha.py#", "autosave"), _drop(".py", "only-ext"),
+               _drop("alpha.pyc", "pyc", "binary"), _drop("notes.txt", "non-py", "text"), _drop("alpha.py.bak", "backup-ext")]}},
+    {"entry": "dir", "defect": None, "layout": {"name": "suites", "noise": False, "drops": [],
+     "mods": [_m("a", tests=[_t("t_a")]), _m("a.b", tests=[_t("t_ab")])],
+     "dirs": [{"name": ".git", "noise": False, "mods": [], "drops": [_drop("config", "non-py", "text")],
+               "dirs": [{"name": "hooks", "noise": False, "mods": [], "dirs": [], "drops": [_drop(".pre_commit.py", "hidden-draft")]}]},
+              {"name": ".wip", "noise": False, "dirs": [], "drops": [], "mods": [_m("kept", tests=[_t("k")])]},
+              {"name": "__pycache__", "noise": False, "mods": [], "dirs": [], "drops": [_drop("a.cpython-312.pyc", "pyc", "binary")]},
+              {"name": "a.b", "noise": False, "dirs": [], "mods": [_m("sub", tests=[_t("s")])], "drops": [_drop(".#sub.py", "lock-symlink", "dangling")]}]}},
+    # an entry the scan accepts by its name that is not Python source: the load fails (the scan looks at names only)
+    {"entry": "dir", "defect": "broken", "layout": {"name": "suites", "noise": False, "dirs": [], "drops": [],
+     "mods": [_m("alpha", tests=[_t("first")]), _m("zdir", broken="isdir")]}},
+]
+
 # hand-written shapes replayed first on every run
 CORPUS_SHAPES = [
     # module + companion directory + directory without module + collapse + hidden module with companion directory
@@ -723,7 +841,7 @@ class Load(C.Stream):
     quick_seconds = 38
     thorough_seconds = 420
     chunk = 60
-    corpus = [WITNESS_D18, WITNESS_D36] + COND_SHAPES + CORPUS_SHAPES
+    corpus = [WITNESS_D18, WITNESS_D36] + DROPPINGS + COND_SHAPES + CORPUS_SHAPES
 
     def gen(self, rng, i):
         lay = L.gen_layout(rng)
@@ -773,6 +891,14 @@ class Load(C.Stream):
         """the property statement on one observation of the real loader, against the declaration list `dec`"""
         fails = []
         exp = dec["entries"]
+        if obs.get("imported_drops"):
+            # a dropping (dot-prefixed / `__`-prefixed / not `*.py`) is not a suite module: it must not even be imported
+            fails.append(C.Failure("C13/dropping-imported",
+                                   f"directory entries that are not suite modules were imported by the loader: {obs['imported_drops'][:4]}"))
+        if "error" in obs and obs["error"].get("kind") == "importError" and \
+                any(d[-1] == obs["error"].get("file") for d in dec["drops"]) and not L.scan_accepts(obs["error"].get("file", "")):
+            fails.append(C.Failure("C13/load-fails-on-dropping",
+                                   f"the load fails on a directory entry that is not a suite module: {obs['error'].get('file')!r}"))
         if "ok" in obs:
             got = obs["flat"]
             if dec["strict_dup"]:
@@ -834,6 +960,11 @@ class Load(C.Stream):
         if case["entry"] == "class" and obs.get("error", {}).get("by") == "harness-import":
             return None if ans.get("mod_broken", True) else "harness import failed on a module the layout does not call broken"
         dec = declared(case)
+        for pth, acc, stem in ans.get("scan") or []:
+            if acc != L.scan_accepts(pth[-1]):
+                return f"model scan decision on {pth[-1]!r}: {acc}, the layout's rule says {L.scan_accepts(pth[-1])}"
+            if acc and stem + ".py" != pth[-1]:
+                return f"model stem of {pth[-1]!r}: {stem!r}"
         if "ok" in ans:
             if "ok" not in obs:
                 return f"model loads, implementation raises {obs['error']}"
@@ -917,6 +1048,72 @@ def streams(ctx):
 # ---------------------------------------------------------------------------------------------
 
 TABLE_OPENS = ("LccModel.Loader",)
+
+# names the directory scan is asked about: prefix x core x suffix (hidden, dunder, backup, case, several dots, spaces …)
+SCAN_PREFIXES = ["", ".", "..", "_", "__", "___", "._", ".#", "#", " ", "_."]
+SCAN_CORES = ["", "alpha", "a.b", ".py", "é [*]"]
+SCAN_SUFFIXES = [".py", ".PY", ".Py", ".pyc", ".py~", ".py#", "", "py", ".p", ".py.bak", ".py.py", ".py ", ".py\n", "\n.py"]
+
+
+def _lean_chars(x):
+    """a name as a Lean `List Char` (the kernel evaluates list functions on it directly; `String.toList` of a literal is slow)"""
+    return "[" + ", ".join("'%s'" % ch if ch.isalnum() and ord(ch) < 128 else "Char.ofNat %d" % ord(ch) for ch in x) + "]"
+
+
+def scan_names():
+    out = []
+    for a in SCAN_PREFIXES:
+        for b in SCAN_CORES:
+            for c in SCAN_SUFFIXES:
+                n = a + b + c
+                if n not in ("", ".", "..") and n not in out:
+                    out.append(n)
+    for n in ["__init__.py", "__main__.py", "__pycache__", ".git", ".alpha_draft.py", ".#alpha.py", "._alpha.py", "#alpha.py#",
+              "alpha.cpython-312.pyc", "conftest.py", "Makefile"]:
+        if n not in out:
+            out.append(n)
+    return out
+
+
+def scan_tables():
+    """Execute the REAL `get_py_files_from_dir(dir)` and `get_matching_files(dir/*.py, excluding=dir/__*.py)` (what
+    `load_suites_from_directory` / `load_suites_from_files` scan with) on real scratch directories holding every name of
+    `scan_names()` — once as regular files, once as directories, once as dangling symbolic links — and record which names
+    come back, and what `strip_py_ext` makes of the accepted ones."""
+    from lemoncheesecake.helpers import moduleimport as MI
+    names = scan_names()
+    top = tempfile.mkdtemp(prefix="lccverif-c13scan-")
+    try:
+        got = {}
+        for kind in ("file", "dir", "link"):
+            root = os.path.join(top, kind)
+            os.makedirs(root)
+            for n in names:
+                q = os.path.join(root, n)
+                if kind == "file":
+                    with open(q, "w") as fh:
+                        fh.write("raise RuntimeError('never imported')\n")
+                elif kind == "dir":
+                    os.makedirs(q)
+                else:
+                    os.symlink("user@host.1234:1700000000", q)
+            assert sorted(os.listdir(root)) == sorted(names)
+            got[kind] = {os.path.basename(f) for f in MI.get_py_files_from_dir(root)}
+            if kind == "file":
+                got["files-entry"] = {os.path.basename(f) for f in MI.get_matching_files(os.path.join(root, "*.py"),
+                                                                                         os.path.join(root, "__*.py"))}
+                assert all(os.path.dirname(f) == root for f in MI.get_py_files_from_dir(root))
+        rows, stems = [], []
+        for n in names:
+            r = (n in got["file"], n in got["files-entry"], n in got["dir"], n in got["link"])
+            rows.append((_lean_chars(n), "(%s, %s, %s, %s)" % tuple(_B(x) for x in r),
+                         "%r: get_py_files_from_dir file=%s dir=%s dangling-link=%s; get_matching_files=%s" % (n, r[0], r[2], r[3], r[1])))
+            if r[0]:
+                st = MI.strip_py_ext(n)
+                stems.append((_lean_chars(n), _lean_chars(st), "strip_py_ext(%r) = %r" % (n, st)))
+        return rows, stems
+    finally:
+        shutil.rmtree(top, ignore_errors=True)
 
 # every generated value shape, plus a few more of the same shapes
 TABLE_PVS = L.FALSY_PVS + L.TRUTHY_PVS + [L._pv("int", v=-7), L._pv("int", v=10 ** 12), L._pv("float", k="fin", milli=1),
@@ -1057,7 +1254,10 @@ def tables(ctx):
         builder._objects_with_metadata.clear()
         shutil.rmtree(top, ignore_errors=True)
     imports = ("LccModel.Model.Loader",)
+    scan_rows, stem_rows = scan_tables()
     return [
+        C.Table("scanFilterTable", "List (List Char × (Bool × Bool × Bool × Bool))", scan_rows, imports),
+        C.Table("scanStemTable", "List (List Char × List Char)", stem_rows, imports),
         C.Table("testFunctionCondTable", "List (Vis × (Bool × Nat))", rows_fn, imports),
         C.Table("testMethodCondTable", "List (Vis × (Bool × Nat))", rows_meth, imports),
         C.Table("classCondTable", "List (Vis × (Bool × Nat × Nat))", rows_cls, imports),
